@@ -5,7 +5,7 @@ import os
 import vlib
 
 MINV = ["AcceptWithinLimit", "RetirementsReported", "TokensExact", "TokensGoneAfterClose"]
-GINV = ["IssuedWithinPeerLimit", "RoutingExact", "RetireErrors", "CleanAfterClose"]
+GINV = ["IssuedWithinPeerLimit", "RoutingExact", "RoutedPrecisely", "RetireErrors", "CleanAfterClose"]
 
 
 def mnamed(o):
@@ -29,6 +29,8 @@ def gnamed(o):
         return {"op": op, "seq": o["a"], "same": o["b"] == 1, "exp": 30}
     if op == "HandshakeDone":
         return {"op": op, "exp": o["a"]}
+    if op == "Packet":
+        return {"op": op, "seq": o["a"]}
     if op == "Tick":
         return {"op": op, "d": o["a"]}
     if op == "Close":
@@ -78,13 +80,15 @@ def gwalk(rng, n):
             ops.append({"op": "SetMax", "limit": rng.choice([2, 4, 8])})
         elif r < 0.62:
             ops.append({"op": "HandshakeDone", "exp": 30})
+        elif r < 0.72:
+            ops.append({"op": "Packet", "seq": rng.choice([-1, 0, 1, 2, 3, 5, 99])})
         elif r < 0.8:
             ops.append({"op": "Tick", "d": rng.choice([1, 10, 40, 100])})
         elif r < 0.95:
             ops.append({"op": "Sweep"})
         else:
             ops.append({"op": "Close", "mode": rng.choice(["immediate", "graceful"]), "local": rng.random() < 0.5, "exp": rng.choice([20, 50])})
-            ops += [{"op": "Tick", "d": 10}, {"op": "Tick", "d": 100}]
+            ops += [{"op": "Packet", "seq": rng.choice([0, 1, 2])}, {"op": "Tick", "d": 10}, {"op": "Packet", "seq": rng.choice([0, 1, 2])}, {"op": "Tick", "d": 100}, {"op": "Packet", "seq": 0}]
             break
     return ops
 
@@ -152,7 +156,7 @@ def run(replay=None):
             jobs.append({"label": g, "files": files, "constants": {"Limit": "4", "IssueCap": "6"}, "invariants": GINV})
     viols = c.validate_many(c.spec("ConnIDs_Trace.tla"), jobs, timeout=2400, max_iter=6)
     if not replay:
-        c.require_events(["NewConnID", "Get", "GetForPath", "RetireForPath", "SetToken", "ManagerClose", "SetPeerLimit", "PeerRetires", "HandshakeDone", "Sweep", "Close", "Tick"])
+        c.require_events(["NewConnID", "Get", "GetForPath", "RetireForPath", "SetToken", "ManagerClose", "SetPeerLimit", "PeerRetires", "HandshakeDone", "Sweep", "Close", "Tick", "Packet"])
         if not os.environ.get("VERIF_INV"):
             c.negative_control(c.spec("ConnIDs_Trace.tla"), groups["mgr_L4"], {"Limit": "4", "IssueCap": "6"}, MINV, mutate, label="mgr_L4")
 
